@@ -8,6 +8,7 @@
    registry).  The facts that decide between "TextXError" and "Crash" come from the record
    `cfg`, generated from the current source (Gen/SrcFront.v). *)
 From TxV Require Import Core.Base Model.FrontDefs.
+From TxV Require Model.Kinds.   (* C03's model of the rule-kind fixpoint; not imported: its names stay qualified *)
 
 (* ---------------------------------------------------------------- abstract syntax *)
 Inductive smatch := SStr (s : list N) | SRe (s : list N).      (* text between the quotes / slashes *)
@@ -491,6 +492,8 @@ Definition all_refs (rs : list rule) : list (list N) :=
   | r0 :: _ => refs_rule r0 ++ flat_map refs_rule (effective rs)
   end.
 
+Definition seq_out (a : outcome) (b : outcome) : outcome := match a with Ok => b | _ => a end.
+
 Fixpoint first_error (l : list outcome) : outcome :=
   match l with
   | [] => Ok
@@ -535,9 +538,83 @@ Fixpoint ruletype_target (c : cfg) (o : oracles) (t : tree) (fuel : nat) (r : ru
       end
   end.
 
+(* The multi-pass fixpoint itself (`while has_change[0]` over _determine_rule_type / _has_nonmatch_ref /
+   _add_reffered_classes) is C03's model Model/Kinds.v, run on the grammar as it looks after _resolve_rule_refs:
+   rules = the classes of the namespace followed by the __base__ classes, references by index, alias rules
+   resolved to the rule whose expression they share.  Its `None` = the loop never ends. *)
+Fixpoint index_of (n : list N) (l : list (list N)) : option nat :=
+  match l with
+  | [] => None
+  | x :: l' => if str_eqb n x then Some O else match index_of n l' with Some k => Some (S k) | None => None end
+  end.
+
+Definition kinds_names (c : cfg) (t : tree) : list (list N) := map r_name (effective (t_rules t)) ++ c_base_names c.
+
+Definition kcollapse (mk : list Kinds.expr -> Kinds.expr) (l : list Kinds.expr) : Kinds.expr :=
+  match l with [x] => x | _ => mk l end.
+Definition kwrap (p : bool) (x : Kinds.expr) : Kinds.expr := if p then Kinds.Seq [x] else x.
+Definition knodes (x : Kinds.expr) : list Kinds.expr :=
+  match x with
+  | Kinds.Term => []
+  | Kinds.Ref _ => [x]
+  | Kinds.Seq es => es
+  | Kinds.Choice es => es
+  | Kinds.Opt e => [e]
+  | Kinds.Plus e => [e]
+  end.
+
+Fixpoint kx_expr (names : list (list N)) (e : expr) : Kinds.expr :=
+  match e with
+  | EAsg _ _ _ _ => Kinds.Term            (* only walked in rules without assignments *)
+  | EMatch p _ => kwrap p Kinds.Term
+  | ERef p n => kwrap p (match index_of n names with Some k => Kinds.Ref k | None => Kinds.Term end)
+  | EGroup p c => kwrap p (kcollapse Kinds.Choice (map (fun s => kcollapse Kinds.Seq (map (kx_rexpr names) s)) c))
+  end
+with kx_rexpr (names : list (list N)) (r : rexpr) : Kinds.expr :=
+  match r with
+  | RX e None _ => kx_expr names e
+  | RX e (Some (ROpt, _)) _ => Kinds.Opt (kx_expr names e)
+  | RX e (Some (RStar, _)) _ => Kinds.Opt (kx_expr names e)
+  | RX e (Some (RPlus, _)) _ => Kinds.Plus (kx_expr names e)
+  | RX e (Some (RHash, _)) _ => Kinds.Seq (knodes (kx_expr names e))
+  end.
+
+(* the rule an alias rule finally shares its expression with *)
+Fixpoint alias_final (rs : list rule) (fuel : nat) (n : list N) : list N :=
+  match fuel with
+  | O => n
+  | S f => match last_def n rs with
+           | Some r => match alias_sup r with Some (tg, false) => alias_final rs f tg | _ => n end
+           | None => n
+           end
+  end.
+
+Definition kx_rule (c : cfg) (t : tree) (r : rule) : Kinds.rule :=
+  let names := kinds_names c t in
+  {| Kinds.r_attrs := match flat_map (flat_map asg_ops_rexpr) (r_body r) with [] => false | _ => true end;
+     Kinds.r_body :=
+       match alias_sup r with
+       | Some (tg, false) =>
+           match index_of (alias_final (t_rules t) (length (t_rules t)) tg) names with
+           | Some k => Kinds.Alias k
+           | None => Kinds.Body Kinds.Term
+           end
+       | _ => Kinds.Body (kcollapse Kinds.Choice (map (fun s => kcollapse Kinds.Seq (map (kx_rexpr names) s)) (r_body r)))
+       end |}.
+
+Definition to_kinds (c : cfg) (t : tree) : list Kinds.rule :=
+  map (kx_rule c t) (effective (t_rules t)) ++ map (fun _ => Kinds.default_rule) (c_base_names c).
+
+Definition rule_kinds_fixpoint (c : cfg) (t : tree) : outcome :=
+  match Kinds.determine_types (to_kinds c t) with
+  | Some _ => Ok
+  | None => Crash n_RecursionError          (* never: C23_rule_kind_fixpoint_terminates *)
+  end.
+
 Definition determine_rule_types (c : cfg) (o : oracles) (fuel : nat) (t : tree) : outcome :=
-  if c_ruletype_by_class c then Ok
-  else first_error (map (ruletype_target c o t fuel) (effective (t_rules t))).
+  seq_out (if c_ruletype_by_class c then Ok
+           else first_error (map (ruletype_target c o t fuel) (effective (t_rules t))))
+          (rule_kinds_fixpoint c t).
 
 (* ---------------------------------------------------------------- second pass: _resolve_cls_refs *)
 (* attribute types as visit_assignment records them *)
@@ -597,7 +674,6 @@ Definition cls_errors (c : cfg) (o : oracles) (t : tree) : list outcome :=
 Definition resolve_cls_refs (c : cfg) (o : oracles) (t : tree) : outcome := first_error (cls_errors c o t).
 
 (* ---------------------------------------------------------------- metamodel_from_str *)
-Definition seq_out (a : outcome) (b : outcome) : outcome := match a with Ok => b | _ => a end.
 
 Definition front (c : cfg) (o : oracles) (user : list (list N)) (fuel : nat) (g : ginput) : outcome :=
   match g with
